@@ -371,7 +371,7 @@ func execBurst(op string) string {
 
 func isTCPReplay(ops []string) bool {
 	for _, op := range ops {
-		if strings.HasPrefix(op, "reset-burst") {
+		if strings.HasPrefix(op, "reset-burst") || strings.HasPrefix(op, "reset-accept") || strings.HasPrefix(op, "reset-ws") {
 			return true
 		}
 		if strings.HasPrefix(op, "reset-tcp") {
@@ -386,17 +386,30 @@ func runTCP(x *hx.T, ops []string) {
 		x.Emit(op, hx.Guard(func() string { return execBurst(op) }))
 		x.Count("burst")
 	}
+	other := func(op string) {
+		switch {
+		case strings.HasPrefix(op, "reset-accept"):
+			x.Emit(op, hx.Guard(func() string { return execAccept(op) }))
+			x.Count("accept-while-consumer-stalled")
+		case strings.HasPrefix(op, "reset-ws"):
+			x.Emit(op, hx.Guard(func() string { return execWS(x) }))
+			x.Count("ws-close-while-writer-stalled")
+		}
+	}
 	if ops == nil {
 		// accept bursts first
 		for _, n := range []int{1, 2, 64, 8 + x.R.Intn(100)} {
 			burst(fmt.Sprintf("reset-burst n=%d", n))
 		}
+		other(fmt.Sprintf("reset-accept n=%d", 150+x.R.Intn(30)))
+		other("reset-ws")
 	} else {
 		tcp := false
 		for _, op := range ops {
 			if strings.HasPrefix(op, "reset-burst") {
 				burst(op)
 			}
+			other(op)
 			tcp = tcp || strings.HasPrefix(op, "reset-tcp")
 		}
 		if !tcp {
